@@ -327,6 +327,12 @@ func c10Case(r *mon.Run, t *c10Tree, c mon.Case, dir string) {
 		{"new file", func() string { return fresh("new.go") }, "ok"},
 		{"existing longer file", func() string { p := fresh("old.go"); os.WriteFile(p, old, 0o600); return p }, "ok"},
 		{"existing empty file", func() string { p := fresh("empty.go"); os.WriteFile(p, nil, 0o644); return p }, "ok"},
+		{"existing file that starts with the new output", func() string {
+			p := fresh("prefix.go")
+			os.WriteFile(p, append(append([]byte(nil), exp.Bytes()...), []byte("\nfunc stale() {}\n")...), 0o644)
+			return p
+		}, "ok"},
+		{"existing file equal to the new output", func() string { p := fresh("same.go"); os.WriteFile(p, exp.Bytes(), 0o600); return p }, "ok"},
 		{"target is a directory", func() string { p := fresh("dir"); os.Mkdir(p, 0o755); return p }, "fail"},
 		{"parent missing", func() string { return filepath.Join(fresh("nodir"), "x.go") }, "fail"},
 		{"path component is a file", func() string { p := fresh("file"); os.WriteFile(p, []byte("x"), 0o644); return filepath.Join(p, "x.go") }, "fail"},
